@@ -11,10 +11,13 @@ package main
 import (
 	"context"
 	"encoding/json"
+	"errors"
 	"flag"
 	"fmt"
 	"math/rand"
+	"net/http"
 	"net/http/httptrace"
+	"net/url"
 	"os"
 	"regexp"
 	"strconv"
@@ -128,6 +131,48 @@ func (s *scenarioRun) arrive(hash string, size int, hdr int, enc string) (int, I
 	}
 	s.emitAt("Attempt", s.reg.ceilUs(), map[string]any{"n": n, "hash": hash, "size": size, "hdr": hdr, "enc": enc})
 	return n, it
+}
+
+// netFault is a transport error that is temporary without being a time-out.
+type netFault struct{ msg string }
+
+func (e netFault) Error() string   { return e.msg }
+func (e netFault) Temporary() bool { return true }
+func (e netFault) Timeout() bool   { return false }
+
+// proxy is the transport's proxy hook of an HTTP exporter: it runs once per round trip, before anything is sent.
+// When the script says that this attempt fails in the transport it records the attempt (no payload is observable
+// here: hash "-") and returns the fault; otherwise the request goes directly to the collector.
+func (s *scenarioRun) proxy(req *http.Request) (*url.URL, error) {
+	s.mu.Lock()
+	next := s.n + 1
+	if next > len(s.sc.Items) || (s.sc.Items[next-1].Kind != "tempnet" && s.sc.Items[next-1].Kind != "permnet") {
+		s.mu.Unlock()
+		return nil, nil
+	}
+	it := s.sc.Items[next-1]
+	s.n = next
+	enc := req.Header.Get("Content-Encoding")
+	if enc == "" {
+		enc = "none"
+	}
+	hdr := 0
+	for k, v := range s.hdr {
+		if req.Header.Get(k) == v {
+			hdr++
+		}
+	}
+	if !s.closed {
+		s.emitAt("Attempt", s.reg.ceilUs(), map[string]any{"n": next, "hash": "-", "size": 0, "hdr": hdr, "enc": enc})
+	}
+	s.mu.Unlock()
+	s.resp(next, it)
+	s.after(next, it)
+	msg := "injected transport fault " + marker(s.sc.ID, next)
+	if it.Kind == "tempnet" {
+		return nil, netFault{msg: msg}
+	}
+	return nil, errors.New(msg) // no Temporary method: a permanent error
 }
 
 func (s *scenarioRun) resp(n int, it Item) {
@@ -266,7 +311,17 @@ func (r *runner) runScenario(sc Scenario) {
 		r.res.Inconcl(fmt.Sprintf("scenario %d: cannot listen: %v", sc.ID, err))
 		return
 	}
-	exp, err := newDriven(sc.Exp, sc.ID, addr, sc.X, s.hdr, timeout, rc)
+	// transport faults (temporary but not a time-out / permanent) are injected through the exporter's WithProxy hook
+	var pf proxyFunc
+	if protoOf(sc.Exp) == "http" {
+		for _, it := range sc.Items {
+			if it.Kind == "tempnet" || it.Kind == "permnet" {
+				pf = s.proxy
+				break
+			}
+		}
+	}
+	exp, err := newDriven(sc.Exp, sc.ID, addr, sc.X, s.hdr, timeout, rc, pf)
 	if err != nil {
 		closeLn()
 		r.res.Inconcl(fmt.Sprintf("scenario %d: cannot build exporter %s: %v", sc.ID, sc.Exp, err))
